@@ -30,6 +30,7 @@ type collector struct {
 	blocks   map[*ssa.BasicBlock]bool
 	depth    int
 	writes   []wrec
+	globals  []modLoc
 	allKeys  map[string]bool // keys havocked entirely
 	ghosts   map[string]bool
 	symMark  int
@@ -149,7 +150,75 @@ func (v *Verifier) heapFor(st *State, sort string) *HeapArr {
 	v.D.declConst(base, "(Array Ptr "+sort+")")
 	h := &HeapArr{Key: key, IdxSort: "Ptr", ElSort: sort, Base: mk("(Array Ptr "+sort+")", base)}
 	st.heap[key] = h
+	for _, g := range st.globalHavocs {
+		v.applyGlobalHavoc(st, h, g)
+	}
 	return h
+}
+
+// internalField(p): p is a field of an object of a struct type declared in the verified module
+// (zog's own bookkeeping and schema objects), as opposed to user data.
+func (v *Verifier) internalField(p *Term, key string) *Term {
+	var alts []*Term
+	idx := mk("Int", "zz_fld_idx", p)
+	if p.Op == "zz_fld" {
+		idx = p.Args[1]
+	}
+	for _, sn := range sortedKeys(v.D.structBase) {
+		pk := v.D.structPkg[sn]
+		if pk == "" || !(strings.HasPrefix(pk, v.P.ModPath) || pk == "sync" || pk == "strings") {
+			continue
+		}
+		b := v.D.structBase[sn]
+		alts = append(alts, tAnd(tCmp("<=", intLit(int64(b)), idx), tCmp("<", idx, intLit(int64(b+1000)))))
+	}
+	isF := mk("Bool", "(_ is zz_fld)", p)
+	if p.Op == "zz_fld" {
+		isF = tTrue
+	} else if isCtor(p) {
+		isF = tFalse
+	}
+	r := tAnd(isF, tOr(alts...))
+	if key == "h_Fn" {
+		isE := mk("Bool", "(_ is zz_elem)", p)
+		if p.Op == "zz_elem" {
+			isE = tTrue
+		} else if isCtor(p) {
+			isE = tFalse
+		}
+		r = tOr(r, isE)
+	}
+	return r
+}
+
+// applyGlobalHavoc applies a heap-wide havoc (kinds heap, userdata, under) to one heap component.
+func (v *Verifier) applyGlobalHavoc(st *State, h *HeapArr, l modLoc) {
+	if h.IdxSort != "Ptr" || strings.HasPrefix(h.Key, "g_") {
+		if l.kind == "heap" {
+			h.Base = v.Y.fresh(v.D, "hall", h.arraySort())
+			h.Writes = nil
+		}
+		return
+	}
+	if strings.HasPrefix(h.Key, "map") && l.kind != "heap" {
+		return
+	}
+	oldArr := h.arrayTerm()
+	nb := v.Y.fresh(v.D, "hg_"+l.kind, h.arraySort())
+	if l.kind != "heap" {
+		p := mk("Ptr", "zz_qp")
+		sel := mk(h.ElSort, "select", nb, p)
+		var keep *Term
+		switch l.kind {
+		case "userdata":
+			keep = v.internalField(p, h.Key)
+		case "under":
+			keep = tNot(mk("Bool", "zz_under", p, l.base))
+		}
+		st.assume(mk("Bool", "forall ((zz_qp Ptr))", withPattern(tImp(keep, tEq(sel, mk(h.ElSort, "select", oldArr, p))), sel)))
+	}
+	h.Base = nb
+	h.Writes = nil
 }
 
 func (v *Verifier) customHeap(st *State, key, idxSort, elSort string) *HeapArr {
